@@ -11,9 +11,11 @@ elab "#audit_module " m:ident : command => do
   let names := env.header.moduleData[idx.toNat]!.constNames
   for n in names do
     if n.isInternal then continue
-    -- compiler-generated equation/unfolding lemmas are not obligations
+    -- compiler-generated equation/unfolding/injectivity lemmas are not obligations
     let last := n.getString!
-    if last.startsWith "eq_" || last.startsWith "match_" || last.startsWith "proof_" || last == "congr_simp" || last.startsWith "injEq" || last.startsWith "sizeOf_spec" || last.startsWith "inj" || last.startsWith "noConfusion" then continue
+    let isEqN := last.startsWith "eq_" && ((last.drop 3).toString.all Char.isDigit || last == "eq_def" || last == "eq_unfold")
+    if isEqN || last.startsWith "match_" || last.startsWith "proof_" || last == "congr_simp" || last == "injEq" ||
+       last == "inj" || last == "sizeOf_spec" || last == "noConfusion" then continue
     match env.find? n with
     | some (.thmInfo _) =>
       let axs ← Lean.collectAxioms n
